@@ -48,10 +48,15 @@ static void t_add(void* p) {
 static int t_del(void* p) { unsigned i = hp(p); while (tab[i]) { if (tab[i] == p) { tab[i] = TOMB; yv_live--; return 1; } i = (i + 1) & (TSIZE - 1); } return 0; }
 void yv_alloc_reset(void) { memset(tab, 0, sizeof tab); t_filled = 0; yv_live = 0; yv_alloc_count = 0; yv_fail_hits = 0; }
 
+#include <execinfo.h>
+void* yv_fail_bt[12]; int yv_fail_bt_n = 0;
 static int should_fail(void) {
   if (!yv_alloc_track) return 0;
   yv_alloc_count++;
-  if (yv_fail_at && (yv_alloc_count == yv_fail_at || (yv_fail_mode == 1 && yv_alloc_count > yv_fail_at))) { yv_fail_hits++; errno = ENOMEM; return 1; }
+  if (yv_fail_at && (yv_alloc_count == yv_fail_at || (yv_fail_mode == 1 && yv_alloc_count > yv_fail_at))) {
+    if (yv_fail_hits == 0) { int t = yv_alloc_track; yv_alloc_track = 0; yv_fail_bt_n = backtrace(yv_fail_bt, 12); yv_alloc_track = t; }
+    yv_fail_hits++; errno = ENOMEM; return 1;
+  }
   return 0;
 }
 void* __wrap_malloc(size_t n) { if (should_fail()) return NULL; void* p = __real_malloc(n); if (p && yv_alloc_track) t_add(p); return p; }
@@ -68,5 +73,6 @@ void __wrap_free(void* p) { if (p) t_del(p); __real_free(p); }
 char* __wrap_strdup(const char* s) { if (should_fail()) return NULL; char* p = __real_strdup(s); if (p && yv_alloc_track) t_add(p); return p; }
 char* __wrap_strndup(const char* s, size_t n) { if (should_fail()) return NULL; char* p = __real_strndup(s, n); if (p && yv_alloc_track) t_add(p); return p; }
 #else
+void* yv_fail_bt[12]; int yv_fail_bt_n = 0;
 void yv_alloc_reset(void) { yv_live = 0; yv_alloc_count = 0; }
 #endif
